@@ -405,6 +405,8 @@ func Corpus(o Options) []Case {
 		form("generic embeds instantiated generic with a concrete argument", "[T any]", 1, "\tLIG[dep.T]\n\tdep.IG[[]T]\n\tPut(k string, v T)\n", []string{"DepG", "Get", "Put"}, simpleT, "")
 		form("generic three params", "[A any, B comparable, C ~int]", 3, "\tM(a A, b B, c C) map[B]A\n", []string{"M"}, [][]string{{"int", "string", "int"}, {"error", "src.LT", "src.MyInt"}}, "")
 		form("generic param shadows package", "[dep any]", 1, "\tM(a dep) dep\n", []string{"M"}, simpleT, "")
+		form("generic param named like a package the signatures use", "[http any]", 1, "\tM(a http, x nhttp.X) http\n\tN(x *nhttp.X) []http\n", []string{"M", "N"}, simpleT, "")
+		form("generic params named like two packages the signatures use", "[sync any, fmt comparable]", 2, "\tM(s syncp.S, k fmt) (sync, fmtp.F)\n", []string{"M"}, [][]string{{"int", "string"}, {"error", "src.LT"}}, "")
 		form("generic params whose names method parameters reuse", "[a any, T any]", 2, "\tM(a int, T string) (v int)\n\tN(x a) T\n", []string{"M", "N"}, [][]string{{"int", "string"}, {"error", "src.LT"}}, "")
 		form("generic blank param", "[_ any]", 1, "\tM(a int) int\n", []string{"M"}, simpleT, "")
 		form("generic blank params around a named one", "[_ any, T any, _ comparable]", 3, "\tM(a T) T\n", []string{"M"}, [][]string{{"int", "string", "int"}, {"error", "src.LT", "string"}}, "")
